@@ -182,7 +182,13 @@ func convertBase64(data interface{}) {
 			switch d[0].(type) {
 			case string:
 				for i, s := range d {
-					decoded, err := base64.StdEncoding.DecodeString(s.(string))
+					// Only the first element was inspected above: leave
+					// elements of any other type untouched.
+					str, ok := s.(string)
+					if !ok {
+						continue
+					}
+					decoded, err := base64.StdEncoding.DecodeString(str)
 					if err == nil && len(decoded) == 32 {
 						ch, err := chainhash.NewHash(decoded)
 						if err == nil {
